@@ -271,7 +271,7 @@ func (self *AofFile) ReadHeader() error {
 		return err
 	}
 	if n != 12 {
-		return errors.New("File is not AOF FIle")
+		return io.EOF
 	}
 	if string(buf[:8]) != "SLOCKAOF" {
 		return errors.New("File is not AOF File")
@@ -324,11 +324,13 @@ func (self *AofFile) ReadLock(lock *AofLock) error {
 
 	lockLen := uint16(buf[0]) | uint16(buf[1])<<8
 	if n != int(lockLen)+2 {
-		nn, nerr := self.rbuf.Read(buf[n:64])
-		if nerr != nil {
-			return nerr
+		for n < int(lockLen)+2 && n < 64 {
+			nn, nerr := self.rbuf.Read(buf[n:64])
+			if nerr != nil {
+				return nerr
+			}
+			n += nn
 		}
-		n += nn
 		if n != int(lockLen)+2 {
 			return errors.New("Lock Len error")
 		}
